@@ -84,4 +84,102 @@ HalfCode16 == <<349, 948, 510, 629, 7>>          \* ceil(10^18 / 131070) = 76295
 LineariseOK(e) ==
     LET N == IF e.depth = 8 THEN N8 ELSE N16 IN
     EOTFHolds(CurveOf(e.space), FromInt(e.code), N, e.ylo, e.yhi, Add(Tol3e7, HalfCode16))
+
+-----------------------------------------------------------------------------
+(* C02: encoders and quantisers.                                              *)
+(* An encoder with maximum code n and table resolution 1/steps returns e for  *)
+(* linear input x in (0,1).  Property: e is within half a code of OETF(x')    *)
+(* for some x' within half a table step h = 1/(2 steps) of x.  OETF is        *)
+(* strictly increasing and continuous, so this is equivalent to               *)
+(*     EOTF((e - 1/2)/n) <= min(1, x + h)   and   EOTF((e + 1/2)/n) >= max(0, x - h)  *)
+(* and the published curve appears once only, as the decode relation.         *)
+(* Declared float32 slack (DESIGN 3.2, C02 only): the half code is read as    *)
+(* 1/2 + n 2^-22 codes and the window as (x + h)(1 + 2^-22), because the code  *)
+(* evaluates v*n + 0.5 in float32.                                            *)
+T21 == FromInt(2097152)
+T22 == FromInt(4194304)
+T22p1 == FromInt(4194305)
+
+\* half-code arguments with slack, as rationals c / (n 2^22)
+HalfLo(e, n) == IF e = 0 THEN <<>> ELSE Monus(Mul(FromInt(2 * e - 1), T21), FromInt(n))
+HalfHi(e, n) == Add(Mul(FromInt(2 * e + 1), T21), FromInt(n))
+HalfDen(n) == Mul(FromInt(n), T22)
+
+\* window bounds at scale Sc = 10^18 * 2 steps * 2^22
+WinScale(steps) == Mul(Mul(S18, FromInt(2 * steps)), T22)
+WinHi(X, steps) == Mul(Add(MulSmall(X, 2 * steps), S18), T22p1)                  \* (x + h)(1 + 2^-22)
+WinLo(X, steps) == Monus(Mul(Monus(MulSmall(X, 2 * steps), S18), T22),
+                         Add(MulSmall(X, 2 * steps), S18))                        \* (x - h) - 2^-22 (x + h)
+
+\* first conjunct at an input known to be <= Xhi/10^18; second at one >= Xlo/10^18
+EncLowOK(curve, n, steps, e, Xhi) ==
+    LET c == HalfLo(e, n)  V == WinHi(Xhi, steps)  Sc == WinScale(steps) IN
+    IF c = <<>> THEN TRUE
+    ELSE IF LE(Sc, V) THEN LE(c, HalfDen(n))              \* EOTF(u) <= 1  <=>  u <= 1
+    ELSE EOTFLe(curve, c, HalfDen(n), V, Sc)
+EncHighOK(curve, n, steps, e, Xlo) ==
+    LET V == WinLo(Xlo, steps) IN
+    IF V = <<>> THEN TRUE ELSE EOTFGe(curve, HalfHi(e, n), HalfDen(n), V, WinScale(steps))
+
+\* plain quantiser: |out - n x| <= 1/2 + n 2^-22, at scale 10^18 * 2^23
+QuantLowOK(n, out, Xhi) ==   \* out - n x <= ...   i.e.  2^23 out S <= 2^23 n X + 2^22 S + 2 n S
+    LE(Mul(MulSmall(S18, out), MulSmall(T22, 2)),
+       Add(Mul(MulSmall(Xhi, n), MulSmall(T22, 2)), Add(Mul(S18, T22), MulSmall(S18, 2 * n))))
+QuantHighOK(n, out, Xlo) ==  \* n x - out <= ...
+    LE(Mul(MulSmall(Xlo, n), MulSmall(T22, 2)),
+       Add(Mul(MulSmall(S18, out), MulSmall(T22, 2)), Add(Mul(S18, T22), MulSmall(S18, 2 * n))))
+
+IsQuant(fn) == fn \in {"q8", "q9", "q16"}
+\* e = [fn, curve, n, steps, xclass, out, prev_out, xlo, xhi]: one call
+EncodeOK(e) ==
+    /\ e.out >= e.prev_out                                              \* never decreases as x increases
+    /\ e.out \in 0..e.n
+    /\ CASE e.xclass \in {"neg", "zero", "neginf"} -> e.out = 0         \* x <= 0 gives 0
+         [] e.xclass \in {"ge1", "posinf"} -> e.out = e.n                \* x >= 1 gives the maximum code
+         [] e.xclass = "nan" -> TRUE                                     \* returns (no panic)
+         [] e.xclass = "in" ->
+              IF IsQuant(e.fn)
+                THEN QuantLowOK(e.n, e.out, e.xhi) /\ QuantHighOK(e.n, e.out, e.xlo)
+                ELSE /\ EncLowOK(e.curve, e.n, e.steps, e.out, e.xhi)
+                     /\ EncHighOK(e.curve, e.n, e.steps, e.out, e.xlo)
+
+(* Run-length certificate for "every float32": a maximal run of consecutive   *)
+(* floats in (0,1) with the same output e.  Both conjuncts are monotone in x, *)
+(* so the run satisfies them for all its members iff the first holds at its    *)
+(* first x and the second at its last x; monotonicity is outputs increasing    *)
+(* from run to run.                                                            *)
+RunOK(e) ==
+    /\ e.out > e.prev_out \/ e.prev_out = -1
+    /\ e.out \in 0..e.n
+    /\ IF IsQuant(e.fn)
+         THEN QuantLowOK(e.n, e.out, e.first_hi) /\ QuantHighOK(e.n, e.out, e.last_lo)
+         ELSE /\ EncLowOK(e.curve, e.n, e.steps, e.out, e.first_hi)
+              /\ EncHighOK(e.curve, e.n, e.steps, e.out, e.last_lo)
+\* summary of the exhaustive sweep outside (0,1) and of the bookkeeping
+SweepOK(e) == /\ e.neg_bad = 0 /\ e.hi_bad = 0 /\ e.zero_bad = 0 /\ e.one_bad = 0
+              /\ e.floats_in_runs = e.floats_expected
+AgreeOK(e) == e.a = e.b
+-----------------------------------------------------------------------------
+(* C14: alpha passes through exactly; linearised pixels stay validly           *)
+(* premultiplied.                                                              *)
+\* e = [op ("linearise" | "encode"), a, aout, pairs = <<channel in, channel out>>...]
+AlphaOK(e) ==
+    /\ e.aout = e.a                                                    \* AlphaIdentity
+    /\ e.a = 0 => \A i \in 1..Len(e.pairs) : e.pairs[i][2] = 0         \* TransparentIsZero
+    /\ e.op = "linearise" =>                                           \* PremultValid
+         \A i \in 1..Len(e.pairs) : e.pairs[i][1] <= e.a => e.pairs[i][2] <= e.aout
+
+\* the constructor's alpha is exactly A/max: the float32 m / 2^k returned is the
+\* correctly rounded quotient, i.e. |m/2^k - A/max| <= 2^-(k+1)
+\*   <=>  |2 m max - A 2^(k+1)| <= max        (m < 2^24, 24 <= k <= 40)
+AlphaNormOK(e) ==
+    IF e.A = 0 THEN e.m = 0
+    ELSE /\ e.m >= 8388608 /\ e.m < 16777216          \* normalised 24-bit mantissa
+         /\ LE(AbsDiff(Mul(FromInt(e.m), FromInt(2 * e.max)), Mul(FromInt(e.A), Pow(<<2>>, e.k + 1))),
+               FromInt(e.max))
+
+(* Design lemma behind PremultValid, checked by TLC on the specification: on   *)
+(* the 16-bit grid every curve satisfies EOTF(x) <= x, so a channel that does  *)
+(* not exceed alpha cannot exceed it after linearisation.                      *)
+CurveBelowIdentity(curve, c) == EOTFLe(curve, FromInt(c), N16, FromInt(c), N16)
 =============================================================================
